@@ -115,8 +115,14 @@ pub fn check_pos_noprobe(ctx: &mut Ctx, p: &Pos, b: &Board) {
     check_pos_mode(ctx, p, b, 3)
 }
 
+pub fn check_pos_own(ctx: &mut Ctx, p: &Pos, b: &Board) {
+    check_pos_mode(ctx, p, b, 4)
+}
+
 /// mode 0: round trips + null; 1: + strings of occupied sources and one empty probe; 2: + all
-/// strings; 3: like 1 without the empty probe
+/// strings; 3: like 1 without the empty probe and, for sources that hold no pawn, without the
+/// suffixes b and r (n and q stand for all four there; the full scans keep them); 4: strings whose source holds a man of the side to
+/// move, plus the lowest enemy-held square as a probe
 pub fn check_pos_mode(ctx: &mut Ctx, p: &Pos, b: &Board, mode: u8) {
     let full_scan = mode == 2;
     ctx.states += 1;
@@ -160,6 +166,20 @@ pub fn check_pos_mode(ctx: &mut Ctx, p: &Pos, b: &Board, mode: u8) {
         for (s, f, t, pr) in u.iter() {
             check_string(ctx, p, b, s, *f, *t, *pr, &pseudo, &legal, true);
         }
+    } else if mode == 4 {
+        let probe = (0..64usize).find(|&f| p.b[f] != EMPTY && colour(p.b[f]) != p.stm);
+        for f in 0..64usize {
+            if (p.b[f] == EMPTY || colour(p.b[f]) != p.stm) && Some(f) != probe {
+                continue;
+            }
+            for i in 0..320 {
+                let (s, ff, t, pr) = &u[f * 320 + i];
+                if (*pr == B || *pr == R) && kind(p.b[f]) != P {
+                    continue; // non-pawn sources: the suffixes n and q stand for all four
+                }
+                check_string(ctx, p, b, s, *ff, *t, *pr, &pseudo, &legal, false);
+            }
+        }
     } else if mode == 1 || mode == 3 {
         // strings whose source square is occupied, plus the lowest empty square as a probe
         // (an empty source is refused before anything else is looked at)
@@ -170,6 +190,9 @@ pub fn check_pos_mode(ctx: &mut Ctx, p: &Pos, b: &Board, mode: u8) {
             }
             for i in 0..320 {
                 let (s, ff, t, pr) = &u[f * 320 + i];
+                if mode == 3 && (*pr == B || *pr == R) && p.b[f] != EMPTY && kind(p.b[f]) != P {
+                    continue;
+                }
                 check_string(ctx, p, b, s, *ff, *t, *pr, &pseudo, &legal, false);
             }
         }
@@ -207,15 +230,20 @@ pub fn run(run: &mut Run) {
     run.notes.push("full scans: all 20,480 syntactically valid strings + 0000 on every REACH(2) state; elsewhere all strings whose source square is occupied plus those of the lowest empty square".into());
     run_universes(run, &selfull, DISAGREE, &check_pos_full);
     let sel = if thorough {
-        Sel { m3: true, ep: Some(true), castle: Some(true), promo: Some(true), reach: Some(3), pin2: Some(4), ..Default::default() }
+        Sel { m3: true, ep: Some(true), castle: Some(true), promo: Some(true), reach: Some(3), pin2: Some(4), multicheck: Some(3), checkpin: Some(3), castle2: true, hist: Some((3, 2)), ..Default::default() }
     } else {
         Sel { ep: Some(false), ep_spread_only: true, castle: Some(false), promo: Some(false), ..Default::default() }
     };
     run_universes(run, &sel, DISAGREE, &check_pos);
     if !thorough {
-        // the two largest families: occupied-source strings without the empty-source probe
-        let big = Sel { m3: true, pin2: Some(2), ..Default::default() };
+        // the largest family: occupied-source strings without the empty-source probe
+        let big = Sel { pin2: Some(2), ..Default::default() };
         run_universes(run, &big, DISAGREE, &check_pos_noprobe);
+        let m3 = Sel { m3: true, ..Default::default() };
+        run_universes(run, &m3, DISAGREE, &check_pos_own);
+        // six-men king-zone families: strings whose source holds a man of the side to move
+        let kz = Sel { multicheck: Some(1), checkpin: Some(1), castle2: true, ..Default::default() };
+        run_universes(run, &kz, DISAGREE, &check_pos_own);
     }
     // round trips of every semilegal move (and the null refusals) on the deeper REACH tier
     let selrt = Sel { reach: Some(if thorough { 4 } else { 3 }), ..Default::default() };
